@@ -111,6 +111,13 @@ func HarnessC06Parked(st any) {
 		blocked := sym.WouldBlock(func() { _, _ = r.Handle("GET", "/second/writer", noopHandler) })
 		sym.Assert(blocked, "a second writer waits for the open write transaction")
 	}
+	if sym.ParamOr("trunc", 0) == 1 {
+		// the tree being read was published by a transaction that truncated one method only
+		if err := r.Updates(func(txn *fox.Txn) error { return txn.Truncate("POST") }); err != nil {
+			panic(err)
+		}
+		sym.Cover("reads on a tree published by a partial truncate")
+	}
 	switch stage {
 	case 0: // just opened
 		txn := r.Txn(true)
@@ -242,7 +249,22 @@ func HarnessC06Parked(st any) {
 		if cc != nil {
 			cc.Close()
 		}
-		s.p.inHandler = func() { writeNow("inside a request handler") }
+		s.p.inHandler = func(c fox.Context) {
+			writeNow("inside a request handler")
+			if rt := c.Route(); rt != nil {
+				// the very route that is being served can be deleted (and registered again) meanwhile
+				blocked := sym.WouldBlock(func() {
+					if _, err := r.Delete(c.Method(), rt.Pattern()); err != nil {
+						panic(err)
+					}
+					if _, err := r.Handle(c.Method(), rt.Pattern(), noopHandler); err != nil {
+						panic(err)
+					}
+				})
+				sym.Assert(!blocked, "a writer does not wait for the request that is being served by the route it deletes")
+				sym.Cover("served route deleted inside its handler")
+			}
+		}
 		s.p.serve(req)
 		s.p.inHandler = nil
 		sym.Cover("writes completed while readers were parked")
